@@ -94,10 +94,22 @@ def D6(m, R):
     # _strip internals: default set, the two scans, final clip
     f = st
     chars, inplace, do_l, do_r = f.own_params()[:4]
-    dflt = [n for n in f.walk() if isinstance(n, ast.If) and norm(n.test) == '%s is None' % chars]
-    ok = bool(dflt) and any(isinstance(x, ast.Assign) and norm(x) == '%s = WHITESPACE_CHARS' % chars for x in dflt[0].body)
+    dflt = [n for n in f.walk() if isinstance(n, ast.If) and norm(n.test) in ('%s is None' % chars, '%s is not None' % chars)]
+    ok = bool(dflt) and norm(dflt[0].test) == '%s is None' % chars and \
+        any(isinstance(x, ast.Assign) and norm(x) == '%s = WHITESPACE_CHARS' % chars for x in dflt[0].body)
+    eff = chars          # the name that holds the set actually stripped
+    if not ok and dflt:
+        # `E = WHITESPACE_CHARS if chars is None else chars` (after the pre-pass: an if / else assigning E in both branches)
+        g_ = dflt[0]
+        none_b, some_b = (g_.body, g_.orelse) if norm(g_.test) == '%s is None' % chars else (g_.orelse, g_.body)
+        if len(none_b) == 1 and len(some_b) == 1 and all(isinstance(x, ast.Assign) and isinstance(x.targets[0], ast.Name) for x in (none_b[0], some_b[0])) and \
+                none_b[0].targets[0].id == some_b[0].targets[0].id and norm(none_b[0].value) == 'WHITESPACE_CHARS' and norm(some_b[0].value) == chars and \
+                sum(1 for x in f.walk() if isinstance(x, ast.Name) and x.id == none_b[0].targets[0].id and isinstance(x.ctx, ast.Store)) == 2:
+            ok = True
+            eff = none_b[0].targets[0].id
     R.check(ok, f, dflt[0] if dflt else f.node, 'chars=None strips the documented whitespace set',
             'chars=None does not select WHITESPACE_CHARS', construct='_strip default set')
+    chars = eff
     # the two scans: written in place, or through a private counting helper
     txt = '%s.%s' % (f.self_name, TEXT)
 
@@ -321,7 +333,28 @@ def D6(m, R):
     ok = len(b) == 3 and isinstance(b[0], ast.Assign) and norm(b[0].value) in ('%s.copy()' % f.self_name, 'AnsiString(%s)' % f.self_name) \
         and isinstance(b[1], ast.AugAssign) and isinstance(b[1].op, ast.Add) and norm(b[1].target) == norm(b[0].targets[0]) and norm(b[1].value) == v \
         and isinstance(b[2], ast.Return) and norm(b[2].value) == norm(b[0].targets[0])
-    R.check(ok, f, f.node, '__add__ is: copy the receiver; copy += value; return the copy', construct='__add__')
+    if not ok and len(b) == 1 and isinstance(b[0], ast.Return) and b[0].value is not None and \
+            norm(b[0].value) in ('AnsiString.join(%s, %s)' % (f.self_name, v), '__class__.join(%s, %s)' % (f.self_name, v)):
+        ok = True       # join is the left fold of += over a copy of its first argument (its own obligation, `join`): the same three steps
+    if ok:
+        R.ok(f, f.node, '__add__ is: copy the receiver; copy += value; return the copy', construct='__add__')
+    else:
+        # what is wrong must be shown: the receiver or the operand written, or the result not the extended copy
+        writes_self = any(isinstance(n, ast.AugAssign) and norm(n.target) == f.self_name for n in f.walk())
+        shaped = len(b) == 3 and isinstance(b[0], ast.Assign) and isinstance(b[1], ast.AugAssign) and isinstance(b[2], ast.Return)
+        if writes_self:
+            R.viol(f, f.node, '__add__ applies += to the receiver itself: a + b changes a', construct='__add__')
+        elif shaped:
+            why = []
+            if norm(b[0].value) not in ('%s.copy()' % f.self_name, 'AnsiString(%s)' % f.self_name):
+                why.append('works on %s, not on a copy of the receiver' % short(b[0].value))
+            if not (isinstance(b[1].op, ast.Add) and norm(b[1].target) == norm(b[0].targets[0]) and norm(b[1].value) == v):
+                why.append('does %s instead of <copy> += %s' % (short(b[1]), v))
+            if norm(b[2].value) != norm(b[0].targets[0]):
+                why.append('returns %s, not the extended copy' % short(b[2].value))
+            R.viol(f, f.node, '__add__ ' + '; '.join(why), construct='__add__')
+        else:
+            R.undecided(f, f.node, '__add__ is not of the form: copy the receiver; copy += value; return the copy', construct='__add__')
     # join
     f = fn('join')
     args = f.vararg
@@ -499,8 +532,7 @@ def D6(m, R):
         env = {ia: Sym({'c': 1})}
         guard_seen = False
         ret_seen = False
-        if idx_attr[1] != -1:
-            problems.append('the cursor starts at %s, not -1' % idx_attr[1])
+        k0 = idx_attr[1]        # the n-th call (n = 0, 1, ..) starts with the cursor at k0 + n and must yield s[n] = s[cursor - k0], stopping iff cursor - k0 >= len
         try:
             for st in b:
                 if isinstance(st, ast.AugAssign) and isinstance(st.op, (ast.Add, ast.Sub)):
@@ -533,8 +565,8 @@ def D6(m, R):
                     k = (x - Sym({'c': 1}))
                     if k.t:
                         raise Undecided('stop test %s' % short(st.test))
-                    shift = k.c - 1           # x = (c + 1) + shift
-                    want = {0: {'=', '>'}, -1: None, 1: {'>'}}.get(shift)      # (c+1) >= len  <=>  (c+2) > len
+                    shift = k.c + k0          # x = (c - k0) + shift
+                    want = {0: {'=', '>'}, -1: None, 1: {'>'}}.get(shift)      # q >= len  <=>  q + 1 > len
                     if want is None or regs != want:
                         problems.append('stops when %s; must stop exactly when the advanced cursor >= len' % short(st.test))
                     if not any(isinstance(y, ast.Raise) and 'StopIteration' in norm(y) for y in st.body):
@@ -549,8 +581,8 @@ def D6(m, R):
                         problems.append('yields %s, not the character at the cursor' % short(rv))
                     else:
                         at = _sym_eval(inner.slice, env)
-                        if at != Sym({'c': 1}, 1):
-                            problems.append('yields the character at %r (c = cursor before the call); expected c + 1' % at)
+                        if at != Sym({'c': 1}, -k0):
+                            problems.append('yields the character at %r (c = cursor before the call, which starts at %d); expected c %+d' % (at, k0, -k0))
                         if env[ia] != Sym({'c': 1}, 1):
                             problems.append('the cursor is %r after a step; expected c + 1' % env[ia])
                         if not guard_seen:
